@@ -83,6 +83,14 @@ Definition w_clear_idem :=
 Lemma clear_idem_differs : redis_map_run cfP w_clear_idem <> mem_map_run cfP w_clear_idem.
 Proof. differ. Qed.
 
+(* the streamless single-key read is a bare HGET: a Revision of another epoch is not noticed *)
+Definition w_ephemeral_single_rev :=
+  [pub "a" "k1" "d1" "N0"; MReadState "a" (Some (0%N, "bogus")) (-1) "k1" false "N1" "N1"].
+Lemma ephemeral_single_rev_differs :
+  nth 1 (redis_map_run cfE w_ephemeral_single_rev) MErr = MState [("k1", 0%N, "d1", 0%Z)] 0 "" /\
+  nth 1 (mem_map_run cfE w_ephemeral_single_rev) MErr = MUnrec.
+Proof. vm_compute. split; reflexivity. Qed.
+
 (* ReadState on a missing channel with a Revision whose epoch is empty *)
 Definition w_state_missing_rev := [MReadState "a" (Some (0%N, "")) (-1) "" false "N0" "N0"].
 Lemma state_missing_rev_differs : redis_map_run cfP w_state_missing_rev <> mem_map_run cfP w_state_missing_rev.
